@@ -227,10 +227,22 @@ fn cast_targets(dt: &DataType) -> Vec<DataType> {
 }
 
 fn binary_kernels(rng: &mut Rng, c: &mut Ctx, dt: &DataType, thorough: bool) {
-    let n = mk::rand_len(rng, if thorough { 70 } else { 24 });
-    let a = small_domain_array(rng, dt, n);
-    let b_scalar = rng.chance(25);
-    let b = small_domain_array(rng, dt, if b_scalar { 1 } else { n });
+    // one call in four uses long arrays with very few nulls (kernels switch strategy on the
+    // null density / on 64-element chunks); the realisations put garbage under those nulls
+    let long = dt.is_primitive() && rng.chance(25);
+    let n = if long { *rng.pick(&[64usize, 65, 128, 130, 200]) } else { mk::rand_len(rng, if thorough { 70 } else { 24 }) };
+    let sparse = |rng: &mut Rng, len: usize| -> ArrayRef {
+        let a = mk::array(rng, dt, len, Cfg::wild(0));
+        let mut valid = vec![true; len];
+        for _ in 0..(1 + rng.below(2)).min(len) {
+            valid[rng.below(len)] = false;
+        }
+        let d = a.to_data().into_builder().nulls(Some(arrow_buffer::NullBuffer::from(valid))).build().unwrap();
+        make_array(d)
+    };
+    let b_scalar = !long && rng.chance(25);
+    let a = if long { sparse(rng, n) } else { small_domain_array(rng, dt, n) };
+    let b = if long { sparse(rng, n) } else { small_domain_array(rng, dt, if b_scalar { 1 } else { n }) };
     let (Ok(ra), Ok(rb)) = (guarded(|| tok::rows(a.as_ref())), guarded(|| tok::rows(b.as_ref()))) else { return };
     let ty = tok::type_str(dt);
     let ras = realise(rng, &a, 4);
@@ -298,11 +310,23 @@ fn binary_kernels(rng: &mut Rng, c: &mut Ctx, dt: &DataType, thorough: bool) {
     }
 }
 
+/// a dictionary array in which some non-null key references a null dictionary value
+fn key_to_null_value(a: &dyn Array) -> bool {
+    match a.as_any_dictionary_opt() {
+        Some(d) if !d.values().is_empty() && d.values().null_count() > 0 => {
+            let k = d.normalized_keys();
+            (0..d.len()).any(|i| !d.keys().is_null(i) && d.values().is_null(k[i]))
+        }
+        _ => false,
+    }
+}
+
 fn eq_probes(rng: &mut Rng, t: &mut Trace, dt: &DataType) {
     let n = mk::rand_len(rng, 40);
     let a = small_domain_array(rng, dt, n);
     let Ok(rows) = guarded(|| tok::rows(a.as_ref())) else { return };
     let ty = tok::type_str(dt);
+    let fam = tok::family(dt);
     let rs = mutate::realisations(rng, &a, 7);
     for (n1, x) in &rs {
         let rx = guarded(|| tok::rows(x.as_ref())).unwrap_or_default();
@@ -310,22 +334,22 @@ fn eq_probes(rng: &mut Rng, t: &mut Trace, dt: &DataType) {
         for (n2, y) in &rs {
             let ry = guarded(|| tok::rows(y.as_ref())).unwrap_or_default();
             if let Ok(r) = guarded(|| x.as_ref() == y.as_ref()) {
-                t.emit(json!({"op":"eq","via":format!("{n1}/{n2}"),"ta":ty,"a":tok::strs(&rx),"tb":ty,"b":tok::strs(&ry),"r":r}));
+                t.emit(json!({"op":"eq","via":format!("{n1}/{n2}"),"fam":fam,"kvnull":key_to_null_value(x.as_ref()) || key_to_null_value(y.as_ref()),"ta":ty,"a":tok::strs(&rx),"tb":ty,"b":tok::strs(&ry),"r":r}));
             } else {
-                t.emit(json!({"op":"eq","via":format!("{n1}/{n2} PANIC"),"ta":ty,"a":tok::strs(&rx),"tb":ty,"b":tok::strs(&ry),"r":"panic"}));
+                t.emit(json!({"op":"eq","via":format!("{n1}/{n2} PANIC"),"fam":fam,"kvnull":false,"ta":ty,"a":tok::strs(&rx),"tb":ty,"b":tok::strs(&ry),"r":"panic"}));
             }
         }
         // against an independently generated array (mostly different) and a one-row-shorter slice
         let other = small_domain_array(rng, dt, n);
         let ro = guarded(|| tok::rows(other.as_ref())).unwrap_or_default();
         if let Ok(r) = guarded(|| x.as_ref() == other.as_ref()) {
-            t.emit(json!({"op":"eq","via":format!("{n1}/other"),"ta":ty,"a":tok::strs(&rx),"tb":ty,"b":tok::strs(&ro),"r":r}));
+            t.emit(json!({"op":"eq","via":format!("{n1}/other"),"fam":fam,"kvnull":key_to_null_value(x.as_ref()) || key_to_null_value(other.as_ref()),"ta":ty,"a":tok::strs(&rx),"tb":ty,"b":tok::strs(&ro),"r":r}));
         }
         if n > 0 {
             let sh = x.slice(0, n - 1);
             let rs2 = guarded(|| tok::rows(sh.as_ref())).unwrap_or_default();
             if let Ok(r) = guarded(|| x.as_ref() == sh.as_ref()) {
-                t.emit(json!({"op":"eq","via":format!("{n1}/shorter"),"ta":ty,"a":tok::strs(&rx),"tb":ty,"b":tok::strs(&rs2),"r":r}));
+                t.emit(json!({"op":"eq","via":format!("{n1}/shorter"),"fam":fam,"kvnull":false,"ta":ty,"a":tok::strs(&rx),"tb":ty,"b":tok::strs(&rs2),"r":r}));
             }
         }
     }
